@@ -908,6 +908,28 @@ func c14SkipEquivalence(c *Ctx, r *Rng) {
 					c.R.Add(Finding{Kind: "oracle", What: "a smudge was delayed although the object is in local storage", Case: enc, Impl: "can-delay=1"})
 					continue
 				}
+				// the model's answer for this request (SmudgeSkip): wanted = not skipped and allowed by the fetch filters
+				wanted := how == "none" || (how == "fetchexclude" && !strings.HasPrefix(it.path, "skipped/")) || (how == "fetchinclude-other" && strings.HasPrefix(it.path, "wanted/"))
+				b01 := func(x bool) string {
+					if x {
+						return "1"
+					}
+					return "0"
+				}
+				if ans, err := c.Or.Ask([]string{"C14 skipsmudge " + b01(cd) + " " + b01(wanted) + " 1"}); err == nil && len(ans) == 1 && len(it.content) > 0 {
+					got := "other"
+					switch {
+					case bytes.Equal(a.Content, it.content):
+						got = "content"
+					case bytes.Equal(a.Content, it.ptr):
+						got = "pointer"
+					}
+					c.R.Count("skip-equivalence.model")
+					if got != ans[0] {
+						c.R.Add(Finding{Kind: "diff", What: "smudge of a pointer whose object is local: model (SmudgeSkip) and implementation disagree on pointer-or-content", Case: enc,
+							Impl: fmt.Sprintf("can-delay=%v: %s", cd, got), Model: ans[0], Broken: "corr.C14.skip"})
+					}
+				}
 				if a.Status != "success" || !bytes.Equal(a.Content, one) {
 					c.R.Add(Finding{Kind: "oracle", What: "the long-running filter's answer to a smudge differs from what the one-shot smudge filter writes for the same pointer and path", Case: enc,
 						Impl: fmt.Sprintf("can-delay=%v: status=%s, %d bytes (sha %s); one-shot: %d bytes (sha %s)", cd, a.Status, len(a.Content), sha(a.Content)[:12], len(one), sha(one)[:12])})
